@@ -299,9 +299,11 @@ func c17Pan(c *Ctx, tp *tape.Tape, extra map[string]any) *Failure {
 	// API keys are base64 text; the tool puts them into the URL unescaped.
 	key := "LUFRPT" + genAlnum(tp, 40) + "=="
 	secrets := map[string]string{"password": o.Password, "api-key": key}
+	redirect := tp.Next(2) == 0
 	run := func(f *panosdev.Fault) *PanResult {
 		n := cs.Node()
 		n.Key = key
+		n.RedirectAPI = redirect
 		if f != nil && f.Kind != "none" {
 			n.Faults = []panosdev.Fault{*f}
 		}
@@ -369,8 +371,8 @@ func c06Pan(c *Ctx, tp *tape.Tape, extra map[string]any) *Failure {
 	var combos []combo
 	for _, fr := range []string{"drc", "do-approve"} {
 		for _, h := range []string{"", "other"} {
-			for _, m := range []string{"present", "absent", "upper"} {
-				for _, ha := range []string{"disabled", "active", "passive", "active-primary", "active-secondary", "garbled"} {
+			for _, m := range []string{"present", "absent", "upper", "none"} {
+				for _, ha := range []string{"disabled", "active", "passive", "active-primary", "active-secondary", "suspended", "garbled"} {
 					combos = append(combos, combo{fr, h, m, ha})
 				}
 			}
@@ -389,6 +391,8 @@ func c06Pan(c *Ctx, tp *tape.Tape, extra map[string]any) *Failure {
 				nv.Display = "firewall-7"
 			case "upper":
 				nv.Display = "FW7 NETSPOC managed"
+			case "none":
+				nv.NoDisplay = true
 			}
 			a.Vsys = append(a.Vsys, &nv)
 		}
@@ -415,11 +419,11 @@ func c06Pan(c *Ctx, tp *tape.Tape, extra map[string]any) *Failure {
 		c.Res.Evaluations++
 		condName := "right-device"
 		switch {
-		case cb.ha == "passive" || cb.ha == "active-secondary" || cb.ha == "garbled":
+		case cb.ha == "passive" || cb.ha == "active-secondary" || cb.ha == "suspended" || cb.ha == "garbled":
 			condName = "ha-" + cb.ha
 		case cb.host != "":
 			condName = "wrong-hostname"
-		case cb.marker == "absent":
+		case cb.marker == "absent" || cb.marker == "none":
 			condName = "marker-absent"
 		}
 		fail := func(sym, msg string) *Failure {
